@@ -16,7 +16,8 @@ EXPLANATION = (
     "must be the exact negative of the BACK order's, and unmatched / removed / unknown results must give "
     "zero on both sides; (R2) Market.cleared sums order.profit over the client's matched orders "
     "(client_orders(client, matched_only=True)) and charges commission max(profit x rate, 0), i.e. only on a "
-    "net win; BaseOrder.profit routes simulated orders to the simulated profit; (R3) "
+    "net win; BaseOrder.profit routes simulated orders to the simulated profit; an order that replaces another "
+    "one is placed for the replaced order's client; (R3) "
     "Blotter.process_closed_market gives every order its own runner's result and the settlement terms; (R4) "
     "the settlement formulas: for each case of that finite domain the BACK return expression, normalised to a "
     "polynomial in matched size S, average price P, dead-heat count N and each-way divisor D (inside the final "
